@@ -953,7 +953,9 @@ func ruleR05j(c *Ctx) {
 	for fn := range pf.funcs {
 		fns = append(fns, fn)
 	}
-	sort.Slice(fns, func(i, j int) bool { return c.declKey("parse", pf.funcs[fns[i]]) < c.declKey("parse", pf.funcs[fns[j]]) })
+	sort.Slice(fns, func(i, j int) bool {
+		return c.declKey("parse", pf.funcs[fns[i]]) < c.declKey("parse", pf.funcs[fns[j]])
+	})
 	for _, fn := range fns {
 		fd := pf.funcs[fn]
 		alias := map[string]string{}
@@ -1086,7 +1088,9 @@ func ruleR05k(c *Ctx) {
 	for fn := range pf.funcs {
 		fns = append(fns, fn)
 	}
-	sort.Slice(fns, func(i, j int) bool { return c.declKey("parse", pf.funcs[fns[i]]) < c.declKey("parse", pf.funcs[fns[j]]) })
+	sort.Slice(fns, func(i, j int) bool {
+		return c.declKey("parse", pf.funcs[fns[i]]) < c.declKey("parse", pf.funcs[fns[j]])
+	})
 	for _, fn := range fns {
 		fd := pf.funcs[fn]
 		runes := map[types.Object]bool{}
